@@ -125,6 +125,14 @@ M = [
     ("C16", "pointer-array-elements-int", "dissect/cstruct/compiler.py", 'item_parser = "_et.__new__(_et, e, stream, r)"', 'item_parser = "_et.__new__(_et, e, None, r)"'),
     ("C16", "sub-loses-stream", "dissect/cstruct/types/pointer.py", "        return type.__call__(self.__class__, int.__sub__(self, other), self._stream, self._context)", "        return type.__call__(self.__class__, int.__sub__(self, other), None, self._context)"),
     ("C16", "char-pointer-reads-one", "dissect/cstruct/types/pointer.py", "                    value = self.type._read_0(self._stream, self._context)", "                    value = self.type._read(self._stream, self._context)"),
+    ("C13", "comment-eats-following-token", "dissect/cstruct/parser.py", 'pattern = r"(\\".*?\\"|\\\'.*?\\\')|(/\\*.*?\\*/|//[^\\r\\n]*)"', 'pattern = r"(\\".*?\\"|\\\'.*?\\\')|(/\\*.*?\\*/[ ]?[a-z]?|//[^\\r\\n]*)"'),
+    ("C13", "crlf-comment-regression", "dissect/cstruct/parser.py", '(/\\*.*?\\*/|//[^\\r\\n]*)"', '(/\\*.*?\\*/|//[^\\r\\n]*$)"'),
+    ("C13", "typedef-lookahead-dropped", "dissect/cstruct/parser.py", 'TOK.add(r"typedef(?=\\s)", "TYPEDEF")', 'TOK.add(r"typedef", "TYPEDEF")'),
+    ("C13", "add-type-compares-names", "dissect/cstruct/cstruct.py", "if not replace and (name in self.typedefs and self.resolve(self.typedefs[name]) != self.resolve(type_)):", "if not replace and (name in self.typedefs and self.typedefs[name] != type_ and isinstance(type_, str)):"),
+    ("C13", "resolve-unbounded", "dissect/cstruct/cstruct.py", "        for _ in range(10):\n            if type_name not in self.typedefs:", "        while True:\n            if type_name not in self.typedefs:"),
+    ("C13", "enum-continuation-regression", "dissect/cstruct/parser.py", '            if lines and (stripped[0] in "=+-*/%&|^<>()" or', '            if lines and (stripped[0] in "+-*/%&|^<>()" or'),
+    ("C13", "struct-registered-late", "dissect/cstruct/parser.py", "        tokens.reset_flags()\n        return st", "        if register and len(names) > 1:\n            self.cstruct.typedefs.pop(names[-1], None)\n        tokens.reset_flags()\n        return st"),
+    ("C13", "unknown-binds-to-uint8", "dissect/cstruct/cstruct.py", "            if type_name not in self.typedefs:\n                raise ResolveError(f\"Unknown type {name}\")", "            if type_name not in self.typedefs:\n                if type_name.lower() in self.typedefs and type_name != type_name.lower():\n                    type_name = type_name.lower()\n                    continue\n                raise ResolveError(f\"Unknown type {name}\")"),
     ("C06", "be-mask-off", "dissect/cstruct/bitbuffer.py", "v >>= self._remaining - bits", "v >>= max(0, self._remaining - bits - (1 if bits == 7 else 0))"),
     ("C06", "writer-shift", "dissect/cstruct/bitbuffer.py", "self._buffer |= data << (self._type.size * 8 - self._remaining)", "self._buffer |= data << (self._type.size * 8 - self._remaining) if bits != 5 else data << bits"),
     ("C06", "straddle-lt", "dissect/cstruct/types/structure.py", "                if bits_remaining < 0:\n                    raise ValueError", "                if bits_remaining < -1:\n                    raise ValueError"),
